@@ -508,9 +508,180 @@ class PathDefaults(Suite):
         return repr(case)
 
 
+IGNORED_SRC = '''
+from taskchain.parameter import AutoParameterObject, IgnoreForPersistence
+
+class Progress(IgnoreForPersistence, AutoParameterObject):
+    """reports progress only: excluded from persistence wherever it stands"""
+    def __init__(self, every=100):
+        self.every = every
+
+class Pipeline(AutoParameterObject):
+    def __init__(self, stages, name='p'):
+        self.stages = stages
+        self.name = name
+'''
+
+
+class IgnoredValues(Suite):
+    """values marked IgnoreForPersistence inside the arguments of an AutoParameterObject, at any depth of nested lists
+    and mappings: adding them (any number, anywhere) does not change the parameter text, while changing anything else
+    does.  Runtime check only (the model's objects carry no marker values)."""
+    name = 'ignored_values_in_object_arguments'
+    model = ''
+
+    def corpus(self):
+        P_ = '__progress__'
+        return [dict(base=b, with_ignored=w) for b, w in [
+            (['scale', 'fit'], ['scale', P_, 'fit']),
+            ({'steps': ['scale', 'fit'], 'hooks': []}, {'steps': ['scale', 'fit'], 'hooks': [P_]}),
+            ({'scale': {'factor': 2}, 'fit': {'iters': 5}}, {'scale': {'factor': 2, 'progress': P_}, 'fit': {'iters': 5}}),
+            ([{'name': 'scale'}, {'name': 'fit', 'iters': 5}], [{'name': 'scale'}, {'name': 'fit', 'iters': 5, 'progress': P_}]),
+            ([['scale', 2], ['fit', 5]], [['scale', 2], ['fit', 5, P_]]),
+            ([[['deep', [1]]]], [[['deep', [1, P_], P_]], P_]),
+            ({'a': [{'b': [{'c': 1}]}]}, {'a': [{'b': [{'c': 1, 'p': P_}], 'p': P_}]})]]
+
+    def gen(self, rng, tier):
+        out = []
+
+        def shape(depth):
+            r = rng.random()
+            if depth == 0 or r < 0.3:
+                return rng.choice([1, 'x', 2.5, None, True])
+            if r < 0.65:
+                return [shape(depth - 1) for _ in range(rng.choice([0, 1, 2, 3]))]
+            return {f'k{i}': shape(depth - 1) for i in range(rng.choice([0, 1, 2, 3]))}
+
+        def inject(v):
+            if isinstance(v, list):
+                o = [inject(x) for x in v]
+                for _ in range(rng.choice([0, 0, 1, 2])):
+                    o.insert(rng.randrange(len(o) + 1), '__progress__')
+                return o
+            if isinstance(v, dict):
+                o = {k: inject(x) for k, x in v.items()}
+                if rng.random() < 0.4:
+                    o['progress'] = '__progress__'
+                return o
+            return v
+        for _ in range(60 if tier == 'quick' else 1500):
+            b = shape(rng.choice([1, 2, 3, 4]))
+            if not isinstance(b, (list, dict)):
+                b = [b]
+            out.append(dict(base=b, with_ignored=inject(b)))
+        return out
+
+    def run_impl(self, case):
+        import sys, types
+        from taskchain.parameter import Parameter, ParameterRegistry
+        name = 'tcv_ignored'
+        m = types.ModuleType(name)
+        sys.modules[name] = m
+        try:
+            exec(compile(IGNORED_SRC, name, 'exec'), m.__dict__)
+
+            def live(v):
+                if v == '__progress__':
+                    return m.Progress(every=10)
+                if isinstance(v, list):
+                    return [live(x) for x in v]
+                if isinstance(v, dict):
+                    return {k: live(x) for k, x in v.items()}
+                return v
+
+            def text(stages, nm='p'):
+                reg = ParameterRegistry([Parameter('pipeline')])
+                reg.set_values({'pipeline': m.Pipeline(live(stages), name=nm)})
+                return reg.repr
+            return dict(plain=text(case['base']), ignored=text(case['with_ignored']), other=text(case['base'], 'q'))
+        finally:
+            sys.modules.pop(name, None)
+
+    def oracle(self, case, obs):
+        if 'unexpected_exception' in obs:
+            return f'unexpected exception {obs["unexpected_exception"]}: {obs["text"]}'
+        if obs['plain'] != obs['ignored']:
+            return (f'values excluded from persistence change the parameter text: {obs["plain"]!r} without them, {obs["ignored"]!r} '
+                    f'with them ({json.dumps(case["with_ignored"])[:200]})')
+        if obs['plain'] == obs['other']:
+            return f'another argument value gives the same text {obs["plain"]!r}'
+        return None
+
+    def nontrivial(self, case, obs):
+        return '__progress__' in json.dumps(case['with_ignored'])
+
+    def key(self, case):
+        return repr(case)
+
+
+class ValueSources(Suite):
+    """one parameter value - plain, or a string with placeholders, at the top or nested - written in the config, in a dict
+    context, in a context file, in a Context object, in a Context object that was itself created with global_vars, in a
+    per-namespace entry of each: the tasks get the same value and the same location whichever way it arrives.
+    Runtime check only."""
+    name = 'value_sources'
+    model = ''
+    VALUES = [5, 'plain', '{DATA}/x', ['{DATA}', 1], {'k': ['a{DATA}', {'m': '{OTHER}'}]}, '{UNDEFINED}/y', [[], {}]]
+
+    def gen(self, rng, tier):
+        return [dict(value=v, ns=ns) for v in self.VALUES for ns in (None, 'n')]
+
+    def run_impl(self, case):
+        import copy
+        from pathlib import Path
+        from taskchain import Config
+        from taskchain.config import Context
+        from ..suites_chain import K, P
+        classes = [dict(K(0, 'Src', params=[P('p', default=[0])]), name='src'), dict(K(1, 'Dst', meta_inputs=[{'cls': 0}]), name='dst')]
+        gv = {'DATA': '/data/dir', 'OTHER': 'o'}
+        v, ns = case['value'], case['ns']
+        files = {'pipe.json': {'tasks': ['@M.*']}, 'pipe_v.json': {'tasks': ['@M.*'], 'p': v},
+                 'ctx.json': ({'p': v} if ns is None else {'for_namespaces': {ns: {'p': v}}})}
+        with pl.workspace(dict(classes=classes, files=files)) as (d, mod):
+            def data(with_value):
+                f = 'pipe_v.json' if with_value else 'pipe.json'
+                return {'uses': [f'{f} as {ns}']} if ns else json.loads(json.dumps(dict(files[f], tasks=[f'{mod}.*'])))
+            cdict = lambda: ({'p': copy.deepcopy(v)} if ns is None else {'for_namespaces': {ns: {'p': copy.deepcopy(v)}}})
+            sources = {
+                'config': lambda: Config(Path('data'), name='c', data=data(True), global_vars=dict(gv)),
+                'dict context': lambda: Config(Path('data'), name='c', data=data(False), global_vars=dict(gv), context=cdict()),
+                'context file': lambda: Config(Path('data'), name='c', data=data(False), global_vars=dict(gv), context='ctx.json'),
+                'Context object': lambda: Config(Path('data'), name='c', data=data(False), global_vars=dict(gv),
+                                                 context=Context(data=cdict(), name='ctx')),
+                'Context object with global_vars': lambda: Config(Path('data'), name='c', data=data(False), global_vars=dict(gv),
+                                                                  context=Context(data=cdict(), name='ctx', global_vars=dict(gv))),
+                'list of contexts': lambda: Config(Path('data'), name='c', data=data(False), global_vars=dict(gv),
+                                                   context=[{'zz': 1}, Context(data=cdict(), name='ctx', global_vars=dict(gv))]),
+            }
+            out = {}
+            for tag, mk in sources.items():
+                try:
+                    ch = mk().chain()
+                    out[tag] = {n: [t.name_for_persistence, pl.to_spec(t.params['p']) if 'p' in t.params else None] for n, t in ch.tasks.items()}
+                except Exception as e:
+                    out[tag] = {'error': f'{type(e).__name__}: {e}'[:200]}
+            return out
+
+    def oracle(self, case, obs):
+        if 'unexpected_exception' in obs:
+            return f'unexpected exception {obs["unexpected_exception"]}: {obs["text"]}'
+        ref = obs['config']
+        for tag, o in obs.items():
+            if json.dumps(o, sort_keys=True) != json.dumps(ref, sort_keys=True):
+                return (f'{case}: with the value written in the config the tasks are {json.dumps(ref)[:250]}; with the value from a '
+                        f'{tag} they are {json.dumps(o)[:250]}')
+        return None
+
+    def nontrivial(self, case, obs):
+        return '{' in json.dumps(case['value'])
+
+    def key(self, case):
+        return repr(case)
+
+
 class C02(Prop):
     pid = 'C02'
-    suites = [Rewrites(), Registry(), ObjectArgOrder(), HashSeeds(), PathDefaults()]
+    suites = [Rewrites(), Registry(), ObjectArgOrder(), HashSeeds(), PathDefaults(), IgnoredValues(), ValueSources()]
     known_classes = {'object-argument-order': object_order_class, 'object-argument-order-registry': object_arg_order_class,
                      'hash-seed-set-attribute': hash_seed_class, 'placeholder-equals-default': placeholder_default_class}
     trusted_base = ['the interpreter hash seed is not in the model (partial): it is exercised by fresh interpreters only']
